@@ -205,6 +205,83 @@ fn number_values(ast: &Ast) -> Vec<String> {
     let mut s = S(vec![]); s.visit_ast(ast); s.0
 }
 
+/// C11, checked on the output alone: which calls are written without parentheses under the configured call_parentheses
+/// (Always: none; None / NoSingleString / NoSingleTable: every call whose only argument is a string / table, unless an index or a method
+/// call follows it or the parentheses carry comments; Input: not checked here).
+fn call_paren_violations(ast: &Ast, cfg: &Config) -> Vec<String> {
+    use full_moon::ast::{Call, FunctionArgs, FunctionCall, Suffix, Index};
+    struct V { omit_string: bool, omit_table: bool, always: bool, bad: Vec<String> }
+    fn has_comment(t: &TokenReference) -> bool {
+        t.leading_trivia().chain(t.trailing_trivia()).any(|x| !matches!(x.token_type(), TokenType::Whitespace { .. }))
+    }
+    impl V {
+        fn check(&mut self, suffixes: Vec<&Suffix>, text: String) {
+            for (i, sfx) in suffixes.iter().enumerate() {
+                let args = match sfx { Suffix::Call(Call::AnonymousCall(a)) => a, Suffix::Call(Call::MethodCall(m)) => m.args(), _ => continue };
+                let followed = matches!(suffixes.get(i + 1), Some(Suffix::Index(_)) | Some(Suffix::Call(Call::MethodCall(_))));
+                let _ = Index::Dot { dot: TokenReference::symbol(".").unwrap(), name: TokenReference::symbol(".").unwrap() };
+                match args {
+                    FunctionArgs::String(_) => if self.always || !self.omit_string || followed { self.bad.push(format!("string call without parentheses in `{}`", text)) },
+                    FunctionArgs::TableConstructor(_) => if self.always || !self.omit_table || followed { self.bad.push(format!("table call without parentheses in `{}`", text)) },
+                    FunctionArgs::Parentheses { parentheses, arguments } if arguments.len() == 1 && !followed => {
+                        let (o, c) = parentheses.tokens();
+                        if has_comment(o) || c.leading_trivia().any(|x| !matches!(x.token_type(), TokenType::Whitespace { .. })) { continue }
+                        match arguments.iter().next().unwrap() {
+                            Expression::String(_) if self.omit_string => self.bad.push(format!("string call keeps its parentheses in `{}`", text)),
+                            Expression::TableConstructor(_) if self.omit_table => self.bad.push(format!("table call keeps its parentheses in `{}`", text)),
+                            _ => {}
+                        }
+                    }
+                    _ => {}
+                }
+            }
+        }
+    }
+    impl Visitor for V {
+        fn visit_function_call(&mut self, fc: &FunctionCall) {
+            let t = fc.to_string(); let t = t.trim().chars().take(60).collect::<String>();
+            self.check(fc.suffixes().collect(), t);
+        }
+        fn visit_var_expression(&mut self, ve: &full_moon::ast::VarExpression) {
+            let t = ve.to_string(); let t = t.trim().chars().take(60).collect::<String>();
+            self.check(ve.suffixes().collect(), t);
+        }
+    }
+    let (os, ot, always) = match cfg.call_parentheses {
+        CallParenType::Always => (false, false, true), CallParenType::NoSingleString => (true, false, false),
+        CallParenType::NoSingleTable => (false, true, false), CallParenType::None => (true, true, false), CallParenType::Input => return vec![],
+    };
+    let mut v = V { omit_string: os, omit_table: ot, always, bad: vec![] };
+    v.visit_ast(ast);
+    v.bad
+}
+
+/// C12, checked on input and output: with sort_requires the top-level statements are a permutation; the statements that are not
+/// requires keep their order and no require moves across one of them; requires bound to the same name keep their order
+fn sort_violations(i: &Ast, o: &Ast) -> Vec<String> {
+    fn keys(ast: &Ast) -> Vec<(String, Option<String>)> {
+        ast.nodes().stmts().map(|s| {
+            let mut c = Collect::default(); c.visit_stmt(s);
+            let k = c.toks.join(" ");
+            let is_req = k.starts_with("local ") && c.toks.get(2).map(|t| t == "=").unwrap_or(false) && (c.toks.get(3).map(|t| t == "require").unwrap_or(false) || k.contains(": GetService"));
+            (k, if is_req { c.toks.get(1).cloned() } else { None })
+        }).collect()
+    }
+    let (ki, ko) = (keys(i), keys(o));
+    let mut bad = vec![];
+    let mut a: Vec<_> = ki.iter().map(|x| &x.0).collect(); a.sort();
+    let mut b: Vec<_> = ko.iter().map(|x| &x.0).collect(); b.sort();
+    if a != b { bad.push("the top-level statements are not a permutation of the input's".to_string()); return bad; }
+    let fixed = |v: &Vec<(String, Option<String>)>| v.iter().filter(|x| x.1.is_none()).map(|x| x.0.clone()).collect::<Vec<_>>();
+    if fixed(&ki) != fixed(&ko) { bad.push("statements that are not requires changed their order".into()); }
+    // the segment (number of non-require statements in front) of every require is unchanged
+    let seg = |v: &Vec<(String, Option<String>)>| { let mut n = 0; let mut m = std::collections::BTreeMap::<String, Vec<usize>>::new(); for x in v { if x.1.is_none() { n += 1 } else { m.entry(x.0.clone()).or_default().push(n) } } m };
+    if seg(&ki) != seg(&ko) { bad.push("a require moved across a statement that is not a require".into()); }
+    let by_name = |v: &Vec<(String, Option<String>)>| { let mut m = std::collections::BTreeMap::<String, Vec<String>>::new(); for x in v { if let Some(n) = &x.1 { m.entry(n.clone()).or_default().push(x.0.clone()) } } m };
+    if by_name(&ki) != by_name(&ko) { bad.push("requires bound to the same name changed their order".into()); }
+    bad
+}
+
 /// corpus mode: every file of a list under one configuration and a few column widths; all oracles that apply to any input
 /// (the formatter does not panic, the output parses, same operator tree, same comments, same literal values)
 fn corpus(args: &[String]) {
@@ -238,6 +315,7 @@ fn corpus(args: &[String]) {
                 Ok(o) => o,
             };
             let (so, no) = (string_values(&o), number_values(&o));
+            let o2 = o.clone();
             let (to, co) = normal_form(o);
             // Luau type syntax: redundant parentheses around types and separators of type tables may change, and this normal form
             // does not parenthesise type operators: for Luau files the streams are compared without `(` `)` `,` (corpus mode only)
@@ -254,6 +332,162 @@ fn corpus(args: &[String]) {
                 fail("comments", format!("only in input {:?} / only in output {:?} ({} vs {} comments)", lost, made, a.len(), b.len()));
             }
             if !cfg.sort_requires.enabled && (si != so || ni != no) { fail("literals", "literal values differ".into()); }
+            if !src.contains("stylua:") { for b in call_paren_violations(&o2, &cfg).into_iter().take(3) { fail("callparens", b); } }   // ignored statements keep their form
+            if cfg.sort_requires.enabled { for b in sort_violations(&i, &o2) { fail("sort", b); } }
+        }
+    }
+    println!("{}", json!({"files": files, "runs": runs, "failures": failures}));
+    std::process::exit(if failures.is_empty() { 0 } else { 1 });
+}
+
+/// range mode: every file of a list, once per top-level statement, with the formatting range set to exactly the bytes of that
+/// statement (first token to last token). C09: every byte in front of the range and behind it is reproduced.
+fn corpus_range(args: &[String]) {
+    use full_moon::node::Node;
+    let list = std::fs::read_to_string(&args[2]).unwrap();
+    let mut cfg = Config::default();
+    let mut max_nested = 6000usize;   // nested statements are used as ranges only in files up to this size (the top-level ones always)
+    for kv in &args[3..] { let (k, v) = kv.split_once('=').unwrap(); if k == "max_nested" { max_nested = v.parse().unwrap(); } else if k != "syntax" { apply_opt(&mut cfg, k, v); } }
+    let mut failures = vec![];
+    let (mut files, mut runs) = (0, 0);
+    std::panic::set_hook(Box::new(|_| {}));
+    for line in list.lines() {
+        let Some((path, syntax)) = line.split_once('\t') else { continue };
+        let Ok(src) = std::fs::read_to_string(path) else { continue };
+        if src.contains('\r') { continue }   // byte positions of full_moon count characters; keep to LF files
+        if !src.is_ascii() { continue }
+        cfg.syntax = syntax_of(syntax);
+        let Ok(ast) = full_moon::parse_fallible(&src, cfg.syntax.into()).into_result() else { continue };
+        files += 1;
+        // (start, end, the leading trivia of the statement's first token hold a comment)
+        let mut spans: Vec<(usize, usize, bool)> = vec![];
+        let has_comment = |t: Vec<&Token>| t.iter().any(|x| !matches!(x.token_type(), TokenType::Whitespace { .. }));
+        // every statement of the file, nested ones included
+        struct Spans(Vec<(usize, usize, bool)>, std::collections::HashSet<usize>);
+        impl Visitor for Spans {
+            fn visit_block(&mut self, b: &full_moon::ast::Block) {
+                use full_moon::node::Node;
+                // the first statement of a block: blank lines in front of it are dropped, not capped at one
+                let first = match b.stmts().next() { Some(s) => s.start_position(), None => b.last_stmt().and_then(|l| l.start_position()) };
+                if let Some(p) = first { self.1.insert(p.bytes()); }
+            }
+            fn visit_stmt(&mut self, st: &full_moon::ast::Stmt) {
+                use full_moon::node::Node;
+                if let (Some(a), Some(b)) = (st.start_position(), st.end_position()) {
+                    self.0.push((a.bytes(), b.bytes(), st.surrounding_trivia().0.iter().any(|x| !matches!(x.token_type(), TokenType::Whitespace { .. }))));
+                }
+            }
+            fn visit_last_stmt(&mut self, st: &full_moon::ast::LastStmt) {
+                use full_moon::node::Node;
+                if let (Some(a), Some(b)) = (st.start_position(), st.end_position()) {
+                    self.0.push((a.bytes(), b.bytes(), st.surrounding_trivia().0.iter().any(|x| !matches!(x.token_type(), TokenType::Whitespace { .. }))));
+                }
+            }
+        }
+        let mut sp = Spans(vec![], Default::default()); sp.visit_ast(&ast);
+        let firsts = sp.1;
+        let top: std::collections::HashSet<usize> = ast.nodes().stmts().filter_map(|s| s.start_position()).map(|p| p.bytes())
+            .chain(ast.nodes().last_stmt().and_then(|l| l.start_position()).map(|p| p.bytes())).collect();
+        spans = sp.0.into_iter().filter(|x| src.len() <= max_nested || top.contains(&x.0)).collect();
+        let _ = &has_comment;
+        for (a, b, lead_comment) in spans {
+            if lead_comment { continue }   // comments directly above the statement are its own leading trivia: they are reformatted with it
+            if a >= b || b > src.len() { continue }
+            // full_moon's end_position is not the last byte of every statement kind: only spans that are a statement by themselves are used
+            if full_moon::parse_fallible(&src[a..b], cfg.syntax.into()).into_result().is_err() { continue }
+            runs += 1;
+            let range = Some(Range::from_values(Some(a), Some(b)));
+            let res = std::panic::catch_unwind(|| format_code(&src, cfg, range, OutputVerification::None));
+            let out = match res { Err(_) => { failures.push(json!({"file": path, "range": [a, b], "kind": "panic", "detail": "formatter panicked"})); continue }
+                                  Ok(Err(e)) => { failures.push(json!({"file": path, "range": [a, b], "kind": "error", "detail": e.to_string()})); continue } Ok(Ok(o)) => o };
+            // the leading trivia of the statement (blank lines, indentation in front of it) and the rest of its last line (trailing
+            // trivia) belong to the statement and may be reformatted: blank lines in front of it are kept (capped at one)
+            let (pre, post) = (&src[..a], &src[b..]);
+            // pre_core: up to the end of the last line in front of the statement that is not blank (its own trailing spaces included)
+            let mut cut = pre.len();
+            loop {
+                let line_start = pre[..cut].rfind('\n').map(|i| i + 1).unwrap_or(0);
+                if pre[line_start..cut].trim().is_empty() && line_start > 0 { cut = line_start - 1; } else { if pre[line_start..cut].trim().is_empty() { cut = 0; } break; }
+            }
+            let pre_core = &pre[..cut];
+            let gap_newlines = pre[cut..].matches('\n').count();
+            let post_rest = match post.find('\n') { Some(i) => &post[i + 1..], None => "" };
+            if !out.starts_with(pre_core) {
+                let k = out.bytes().zip(pre_core.bytes()).position(|(x, y)| x != y).unwrap_or(out.len().min(pre_core.len()));
+                failures.push(json!({"file": path, "range": [a, b], "kind": "before", "detail": format!("byte {} in front of the range changed: input {:?} / output {:?}", k, &pre_core[k.saturating_sub(20)..(k + 20).min(pre_core.len())], &out[k.saturating_sub(20).min(out.len())..(k + 20).min(out.len())])}));
+            } else if !pre_core.is_empty() && {
+                let tail = &out[pre_core.len()..];
+                let got = tail.len() - tail.trim_start_matches('\n').len();
+                got != gap_newlines.min(2) && !(firsts.contains(&a) && got == 1)
+            } {
+                failures.push(json!({"file": path, "range": [a, b], "kind": "blank-lines", "detail": format!("{} line break(s) in front of the statement in the input, output continues {:?}", gap_newlines, &out[pre_core.len()..(pre_core.len() + 12).min(out.len())])}));
+            } else if !out.ends_with(post_rest) && !out.replace(';', "").ends_with(&post_rest.replace(';', "")) {   // the statement's own `;` may sit on a later line
+                failures.push(json!({"file": path, "range": [a, b], "kind": "after", "detail": format!("text behind the range changed: input ends {:?} / output ends {:?}", &post_rest[post_rest.len().saturating_sub(40)..], &out[out.len().saturating_sub(40)..])}));
+            }
+        }
+    }
+    println!("{}", json!({"files": files, "runs": runs, "failures": failures}));
+    std::process::exit(if failures.is_empty() { 0 } else { 1 });
+}
+
+/// ignore mode (C08): every file of a list, once per statement (top-level; nested ones in small files): `-- stylua: ignore` is put on
+/// the line above the statement, and once per pair of neighbouring top-level statements: `-- stylua: ignore start` / `-- stylua: ignore end`
+/// around them. The source text of the ignored statement(s) must appear verbatim in the output.
+fn corpus_ignore(args: &[String]) {
+    use full_moon::node::Node;
+    let list = std::fs::read_to_string(&args[2]).unwrap();
+    let mut cfg = Config::default();
+    let (mut max_nested, mut max_file) = (6000usize, 20000usize);
+    for kv in &args[3..] { let (k, v) = kv.split_once('=').unwrap(); if k == "max_nested" { max_nested = v.parse().unwrap(); } else if k == "max_file" { max_file = v.parse().unwrap(); } else if k != "syntax" { apply_opt(&mut cfg, k, v); } }
+    let mut failures = vec![];
+    let (mut files, mut runs) = (0, 0);
+    std::panic::set_hook(Box::new(|_| {}));
+    for line in list.lines() {
+        let Some((path, syntax)) = line.split_once('\t') else { continue };
+        let Ok(src) = std::fs::read_to_string(path) else { continue };
+        if src.contains('\r') || !src.is_ascii() || src.len() > max_file { continue }
+        if src.contains("stylua:") { continue }   // files with directives of their own: an inserted region would nest with them
+        cfg.syntax = syntax_of(syntax);
+        let Ok(ast) = full_moon::parse_fallible(&src, cfg.syntax.into()).into_result() else { continue };
+        files += 1;
+        struct Spans(Vec<(usize, usize)>);
+        impl Visitor for Spans {
+            fn visit_stmt(&mut self, st: &full_moon::ast::Stmt) {
+                use full_moon::node::Node;
+                if let (Some(a), Some(b)) = (st.start_position(), st.end_position()) { self.0.push((a.bytes(), b.bytes())); }
+            }
+        }
+        let mut sp = Spans(vec![]); sp.visit_ast(&ast);
+        let top: Vec<(usize, usize)> = ast.nodes().stmts().filter_map(|s| Some((s.start_position()?.bytes(), s.end_position()?.bytes()))).collect();
+        let spans: Vec<(usize, usize)> = sp.0.into_iter().filter(|x| src.len() <= max_nested || top.contains(x)).collect();
+        let line_start = |p: usize| src[..p].rfind('\n').map(|i| i + 1).unwrap_or(0);
+        let mut cases: Vec<(String, String, String)> = vec![];   // (kind, modified source, text that must survive)
+        for (a, b) in spans {
+            if a >= b || b > src.len() { continue }
+            if full_moon::parse_fallible(&src[a..b], cfg.syntax.into()).into_result().is_err() { continue }
+            let ls = line_start(a);
+            if !src[ls..a].trim().is_empty() { continue }    // the statement does not start its line: a directive cannot be put above it alone
+            let indent = &src[ls..a];
+            cases.push((format!("ignore@{a}"), format!("{}{}-- stylua: ignore\n{}", &src[..ls], indent, &src[ls..]), src[a..b].to_string()));
+        }
+        for wnd in top.windows(2) {
+            let ((a, _), (_, b2)) = (wnd[0], wnd[1]);
+            let ls = line_start(a);
+            if !src[ls..a].trim().is_empty() { continue }
+            let le = src[b2..].find('\n').map(|i| b2 + i + 1).unwrap_or(src.len());
+            if full_moon::parse_fallible(&src[a..b2], cfg.syntax.into()).into_result().is_err() { continue }
+            let tail_nl = if le == src.len() && !src.ends_with('\n') { "\n" } else { "" };
+            cases.push((format!("region@{a}"), format!("{}-- stylua: ignore start\n{}{}-- stylua: ignore end\n{}", &src[..ls], &src[ls..le], tail_nl, &src[le..]), src[a..b2].to_string()));
+        }
+        for (kind, text, keep) in cases {
+            if full_moon::parse_fallible(&text, cfg.syntax.into()).into_result().is_err() { continue }
+            runs += 1;
+            let res = std::panic::catch_unwind(|| format_code(&text, cfg, None, OutputVerification::None));
+            let out = match res { Err(_) => { failures.push(json!({"file": path, "case": kind, "kind": "panic", "detail": "formatter panicked"})); continue }
+                                  Ok(Err(e)) => { failures.push(json!({"file": path, "case": kind, "kind": "error", "detail": e.to_string()})); continue } Ok(Ok(o)) => o };
+            if !out.contains(&keep) {
+                failures.push(json!({"file": path, "case": kind, "kind": "ignored-changed", "detail": format!("the ignored text {:?} is not in the output", &keep[..keep.len().min(120)])}));
+            }
         }
     }
     println!("{}", json!({"files": files, "runs": runs, "failures": failures}));
@@ -262,7 +496,9 @@ fn corpus(args: &[String]) {
 
 fn main() {
     let args: Vec<String> = std::env::args().collect();
+    if args[1] == "corpus-ignore" { return corpus_ignore(&args); }
     if args[1] == "corpus" { return corpus(&args); }
+    if args[1] == "corpus-range" { return corpus_range(&args); }
     // vxreplay <oracle> <file> [k=v]... [range=a:b] [contains=<file>]
     let oracle = &args[1];
     let src = std::fs::read_to_string(&args[2]).unwrap();
